@@ -59,6 +59,15 @@ def regenerate():
     except Exception:
         rep = {}
     rep["ok"] = True
+    # Rust -> Lean translation of the listed functions (Generated/Src.lean); a failure leaves an empty module, so
+    # that the equality theorems (Proofs/SrcEq*.lean) of the properties that use them no longer build
+    rc2, out2 = sh([sys.executable, os.path.join(ROOT, "tools", "rs2lean.py")])
+    try:
+        rep["translator"] = json.load(open(os.path.join(LEAN, "TzVerif", "Generated", "src_report.json")))
+    except (OSError, ValueError):
+        rep["translator"] = {"ok": rc2 == 0}
+    if rc2 not in (0, 3):
+        infra("rs2lean.py failed: " + out2[-2000:])
     return rep
 
 
